@@ -79,6 +79,9 @@ class SockObj(Opaque):
         else:
             n = ctx.fresh_bv('nread')
             ctx.add(z3.And(z3.UGE(n, 1), z3.ULE(n, cap)))
+        if conc(w.pos) is None:
+            from .harness import concretize
+            w.pos = concretize(ctx, w.pos)
         copy_bytes(it, buf, Slice(w.buf, w.pos, n), n)
         w.pos = z3.simplify(w.pos + n)
         w.log.append(('read', n))
